@@ -5,6 +5,8 @@ import EaselModel.Sqio.EchoSpec
 import EaselModel.Sqio.FetchSpec
 import EaselModel.Sqio.FetchWhole
 import EaselModel.Sqio.FetchMore
+import EaselModel.Sqio.GeomBridge
+import EaselModel.Sqio.TrackBytes
 /-! # C07 — fetching by key, number or coordinates returns what a sequential scan returns
 
 Property theorems only (proofs are glue on `Sqio/Geometry.lean`, `Sqio/Tracker.lean`).
@@ -110,6 +112,21 @@ theorem bplrpl_sound (recs : List Rec) (hw : ∀ rc ∈ recs, rc.WF) (p q : Int)
 /-- `scanFile` is the event-by-event run of the tracker model (`Track.onEol` / `Track.onStop` of `Sqio/Model.lean`, the functions the
     executable model of `seebuf` calls) -/
 theorem scanFile_is_run (recs : List Rec) : scanFile recs = run {} (recs.flatMap Rec.events) := scanFile_eq_run recs
+
+/-- **the objects of `bplrpl_sound` are what `seebuf` computes.** `Sqio/Fold.lean` (`seebuf_fold`) shows that `seebuf`, however the
+    file is cut into read blocks, leaves the tracker that folding `stepByte` over the bytes leaves; on a byte of sequence data `stepByte`
+    succeeds and updates the tracker by `trkByte` (first statement); and folding `trkByte` over the data bytes of a record — terminated
+    lines `segs`, each a stretch without end-of-line bytes followed by one, then an unterminated `rest` — from the state `header_*`
+    leaves is `scanRec` on the record's line counts `recOf` (second statement): the per-record step of `scanFile`. -/
+theorem tracker_over_bytes_is_tracker_over_counts (inmap : Bytes) :
+    (inmap.size = 128 → ∀ (s : Fold.SS) (c : UInt8), BodySpec.isData inmap c = true →
+      (Fold.stepByte inmap s c).2 = .ok ∧ (Fold.stepByte inmap s c).1.trk = TrackBytes.trkByte inmap s.trk c) ∧
+    (∀ (segs : List (List UInt8)) (rest : List UInt8), (∀ l ∈ segs, TrackBytes.Terminated inmap l) →
+      (∀ c ∈ rest, BodySpec.code inmap c ≠ Tables.dsqEol) → ∀ t : Track,
+      (segs.flatten ++ rest).foldl (TrackBytes.trkByte inmap) (Tracker.step t Ev.hdr)
+        = scanRec t (GeomBridge.recOf (BodySpec.isRes inmap) segs rest)) :=
+  ⟨fun hm s c hd => TrackBytes.stepByte_trk inmap hm s c hd,
+   fun segs rest hs hr t => TrackBytes.fold_record inmap segs rest hs hr t⟩
 
 /-- non-vacuity: `>A\nACGT\nACGT\nAC\n>B\nACG` (last line unterminated) ends with rpl = 4, bpl = 5 and both records are well-formed -/
 example : (scanFile [⟨[(5, 4), (5, 4), (3, 2)], none⟩, ⟨[], some (3, 3)⟩]).rpl = 4 ∧
@@ -372,6 +389,117 @@ theorem echo_size (a : Ascii) (sq : Sq) (hb : a.linebased = false) (hr : a.recor
     ((echo a sq).2.2.size : Int) = sq.eoff - sq.roff + 1 := by
   rw [(EchoSpec.echo_eq_scan_bytes a sq hb hr hB h0 h1 h2).2.1, Array.size_extract]
   omega
+
+/-- **(1) ⇒ (3): the tracker's verdict IS the geometry hypothesis of the line-addressing theorem.** `recs`: the file as the
+    tracker counts it (one `Rec` per record); the scan ends with `rpl = r > 0`, `bpl = b > 0`, `b ≠ r + 1` — what `esl-sfetch --index`
+    then stores with `eslSSI_FASTSUBSEQ`; `s`: a record of the sequential scan whose data (the bytes from `s.doff` up to the next
+    record or the end of the file) are the terminated lines `segs` followed by the unterminated `rest`, counted as the member
+    `recOf … segs rest` of `recs`. Then FETCH `start..end` = residues `start..end` of the SCAN, for every block size — the geometry
+    is no longer assumed but concluded from the tracker (`bplrpl_sound` + `GeomBridge.bridge_line`).
+    Not composed (tied by the differential run): that the counts `recs` are those the byte-level `seebuf` loop accumulates
+    (`Sqio/Fold.lean`: `seebuf` = byte fold = one tracker update per line) and that `create_ssi_index` stores exactly them. -/
+theorem fetchSubseq_eq_scan_slice_line_tracked (bytes : Bytes) (abc : Nat) (habc : abc ∈ [0, 1, 2, 3]) (s : Sq) (hs : s ∈ (parseFasta abc bytes).1)
+    (recs : List Rec) (hw : ∀ rc ∈ recs, rc.WF) (b r : Nat) (hr0 : 0 < r) (hb0 : 0 < b) (hne : b ≠ r + 1)
+    (htr : (scanFile recs).rpl = (r : Int)) (htb : (scanFile recs).bpl = (b : Int))
+    (segs : List (List UInt8)) (rest : List UInt8)
+    (hdata : (bytes.toList.drop s.doff.toNat).takeWhile (isData (inmapFasta abc)) = segs.flatten ++ rest)
+    (hmem : GeomBridge.recOf (isRes (inmapFasta abc)) segs rest ∈ recs)
+    (ssi : Ssi) (key : Bytes) (e : SsiEntry) (he : ssi.findName key = some e) (her : e.roff = s.roff) (hed : e.doff = s.doff)
+    (hel : e.len = s.L) (hfast : ssi.fast = true) (hbpl : ssi.bpl = (b : Int)) (hrpl : ssi.rpl = (r : Int)) (start end_ : Int)
+    (a : Ascii) (hf : a.file = bytes) (hb : a.linebased = false) (hr : a.recording ≠ 1) (hB : 1 ≤ a.B)
+    (hi : a.inmap = inmapFasta abc) (hfmt : a.fmt = 1) (heof : a.eofIsOk = true)
+    (sq : Sq) (hdig : sq.digital = (abc != 0)) (hsabc : sq.abc = abc) (hseq : sq.seq = #[]) (hna : 2 ≤ sq.nalloc) (hda : 2 ≤ sq.dalloc)
+    (h1 : 1 ≤ start) (h2 : start ≤ end_) (h3 : end_ ≤ s.L) :
+    (fetchSubseq a ssi sq key start end_).2.2 = .ok ∧
+    (fetchSubseq a ssi sq key start end_).2.1.seq = s.seq.extract (start - 1).toNat end_.toNat ∧
+    (fetchSubseq a ssi sq key start end_).2.1.start = start ∧ (fetchSubseq a ssi sq key start end_).2.1.end_ = end_ ∧
+    (fetchSubseq a ssi sq key start end_).2.1.L = s.L ∧ (fetchSubseq a ssi sq key start end_).2.1.desc = s.desc ∧
+    (fetchSubseq a ssi sq key start end_).2.1.source = key ∧
+    (fetchSubseq a ssi sq key start end_).2.1.name = key ++ #[47] ++ decBytes start ++ #[45] ++ decBytes end_ := by
+  have hgeomAll := bplrpl_sound recs hw r b (by omega) (by omega) htr htb
+  have hg := hgeomAll _ hmem
+  obtain ⟨_, _, _, _, _, r6, r7, _⟩ := FetchSpec.record_shape bytes abc s hs
+  have hL : s.L = (((segs.flatten ++ rest).filter (isRes (inmapFasta abc))).length : Int) := by
+    rw [r7, r6, BodySpec.resOf_size, hdata]
+  have hst : start.toNat ≤ ((segs.flatten ++ rest).filter (isRes (inmapFasta abc))).length := by omega
+  obtain ⟨k1, k2, k3⟩ := GeomBridge.bridge_line (isRes (inmapFasta abc)) segs rest b r hr0 hg start.toNat (by omega) hst
+  have hsplit := List.takeWhile_append_dropWhile (p := isData (inmapFasta abc)) (l := bytes.toList.drop s.doff.toNat)
+  have hgeo : bytes.toList.drop s.doff.toNat = (segs.take ((start.toNat - 1) / r)).flatten ++
+      (((segs.drop ((start.toNat - 1) / r)).flatten ++ rest) ++ (bytes.toList.drop s.doff.toNat).dropWhile (isData (inmapFasta abc))) := by
+    rw [← List.append_assoc, ← k3, ← hdata]; exact hsplit.symm
+  have hdat : ∀ c ∈ (segs.take ((start.toNat - 1) / r)).flatten, isData (inmapFasta abc) c = true := by
+    intro c hc
+    have : c ∈ (bytes.toList.drop s.doff.toNat).takeWhile (isData (inmapFasta abc)) := by
+      rw [hdata, k3]; exact List.mem_append_left _ hc
+    exact GeomBridge.mem_takeWhile_imp this
+  exact fetchSubseq_eq_scan_slice_line bytes abc habc s hs ssi key e he her hed hel hfast b r hbpl hrpl hr0 hb0 hne start end_ a hf hb hr hB hi
+    hfmt heof sq hdig hsabc hseq hna hda h1 h2 h3 _ _ hgeo k1 hdat k2
+
+/-- non-vacuity of `fetchSubseq_eq_scan_slice_line_tracked`: the file `>a\nACGT \nACGT \nAC\n` (`FetchSpec.demoB`): its one record is
+    counted as three lines (6, 4), (6, 4), (3, 2); the tracker ends with rpl = 4, bpl = 6 ≠ rpl + 1; the data cut into lines -/
+example : GeomBridge.recOf (isRes (inmapFasta 0)) [[65, 67, 71, 84, 32, 10], [65, 67, 71, 84, 32, 10], [65, 67, 10]] []
+            = ⟨[(6, 4), (6, 4), (3, 2)], none⟩ ∧
+          (scanFile [⟨[(6, 4), (6, 4), (3, 2)], none⟩]).rpl = 4 ∧ (scanFile [⟨[(6, 4), (6, 4), (3, 2)], none⟩]).bpl = 6 ∧
+          (FetchSpec.demoB.toList.drop 3).takeWhile (isData (inmapFasta 0))
+            = [[65, 67, 71, 84, 32, 10], [65, 67, 71, 84, 32, 10], [65, 67, 10]].flatten ++ [] := by
+  refine ⟨by decide +kernel, by decide, by decide, by decide +kernel⟩
+
+/-- **(1) ⇒ (3), residue addressing** (`bpl = rpl + 1`): the same with the tracker's verdict `rpl = r`, `bpl = r + 1`; every terminated
+    line of the record ends with its newline (a non-residue byte). The tracker's bound on ignored bytes (`≤ bpl − rpl − 1 = 0` on every
+    line, last / unterminated lines included) is what makes "residue `i` of a line is its byte `i`" true on the line holding `start`. -/
+theorem fetchSubseq_eq_scan_slice_residue_tracked (bytes : Bytes) (abc : Nat) (habc : abc ∈ [0, 1, 2, 3]) (s : Sq) (hs : s ∈ (parseFasta abc bytes).1)
+    (recs : List Rec) (hw : ∀ rc ∈ recs, rc.WF) (r : Nat) (hr0 : 0 < r)
+    (htr : (scanFile recs).rpl = (r : Int)) (htb : (scanFile recs).bpl = (r : Int) + 1)
+    (segs : List (List UInt8)) (rest : List UInt8)
+    (hdata : (bytes.toList.drop s.doff.toNat).takeWhile (isData (inmapFasta abc)) = segs.flatten ++ rest)
+    (hterm : ∀ l ∈ segs, ∃ body e, l = body ++ [e] ∧ isRes (inmapFasta abc) e = false)
+    (hmem : GeomBridge.recOf (isRes (inmapFasta abc)) segs rest ∈ recs)
+    (ssi : Ssi) (key : Bytes) (e : SsiEntry) (he : ssi.findName key = some e) (her : e.roff = s.roff) (hed : e.doff = s.doff)
+    (hel : e.len = s.L) (hfast : ssi.fast = true) (hbpl : ssi.bpl = ((r + 1 : Nat) : Int)) (hrpl : ssi.rpl = (r : Int)) (start end_ : Int)
+    (a : Ascii) (hf : a.file = bytes) (hb : a.linebased = false) (hr : a.recording ≠ 1) (hB : 1 ≤ a.B)
+    (hi : a.inmap = inmapFasta abc) (hfmt : a.fmt = 1) (heof : a.eofIsOk = true)
+    (sq : Sq) (hdig : sq.digital = (abc != 0)) (hsabc : sq.abc = abc) (hseq : sq.seq = #[]) (hna : 2 ≤ sq.nalloc) (hda : 2 ≤ sq.dalloc)
+    (h1 : 1 ≤ start) (h2 : start ≤ end_) (h3 : end_ ≤ s.L) :
+    (fetchSubseq a ssi sq key start end_).2.2 = .ok ∧
+    (fetchSubseq a ssi sq key start end_).2.1.seq = s.seq.extract (start - 1).toNat end_.toNat ∧
+    (fetchSubseq a ssi sq key start end_).2.1.start = start ∧ (fetchSubseq a ssi sq key start end_).2.1.end_ = end_ ∧
+    (fetchSubseq a ssi sq key start end_).2.1.L = s.L ∧ (fetchSubseq a ssi sq key start end_).2.1.desc = s.desc ∧
+    (fetchSubseq a ssi sq key start end_).2.1.source = key ∧
+    (fetchSubseq a ssi sq key start end_).2.1.name = key ++ #[47] ++ decBytes start ++ #[45] ++ decBytes end_ := by
+  have hg := bplrpl_sound recs hw r ((r : Int) + 1) (by omega) (by omega) htr htb _ hmem
+  obtain ⟨_, _, _, _, _, r6, r7, _⟩ := FetchSpec.record_shape bytes abc s hs
+  have hL : s.L = (((segs.flatten ++ rest).filter (isRes (inmapFasta abc))).length : Int) := by
+    rw [r7, r6, BodySpec.resOf_size, hdata]
+  have hst : start.toNat ≤ ((segs.flatten ++ rest).filter (isRes (inmapFasta abc))).length := by omega
+  obtain ⟨res, tail, k1, k2, k3, k4, k5⟩ :=
+    GeomBridge.bridge_residue (isRes (inmapFasta abc)) segs rest r hr0 hg hterm start.toNat (by omega) hst
+  have hsplit := List.takeWhile_append_dropWhile (p := isData (inmapFasta abc)) (l := bytes.toList.drop s.doff.toNat)
+  have hgeo : bytes.toList.drop s.doff.toNat = (segs.take ((start.toNat - 1) / r)).flatten ++
+      (res ++ (tail ++ (bytes.toList.drop s.doff.toNat).dropWhile (isData (inmapFasta abc)))) := by
+    rw [← List.append_assoc res, ← List.append_assoc, ← k3, ← hdata]; exact hsplit.symm
+  have hdat : ∀ c ∈ (segs.take ((start.toNat - 1) / r)).flatten, isData (inmapFasta abc) c = true := by
+    intro c hc
+    have : c ∈ (bytes.toList.drop s.doff.toNat).takeWhile (isData (inmapFasta abc)) := by
+      rw [hdata, k3]; exact List.mem_append_left _ hc
+    exact GeomBridge.mem_takeWhile_imp this
+  exact fetchSubseq_eq_scan_slice_residue bytes abc habc s hs ssi key e he her hed hel hfast r hbpl hrpl hr0 start end_ a hf hb hr hB hi
+    hfmt heof sq hdig hsabc hseq hna hda h1 h2 h3 _ res _ hgeo k1 hdat k4 k5 k2
+
+/-- non-vacuity of `fetchSubseq_eq_scan_slice_residue_tracked`: the file `>a\nACGT\nACGT\nAC\n` (`FetchSpec.demoA`) -/
+example : GeomBridge.recOf (isRes (inmapFasta 0)) [[65, 67, 71, 84, 10], [65, 67, 71, 84, 10], [65, 67, 10]] []
+            = ⟨[(5, 4), (5, 4), (3, 2)], none⟩ ∧
+          (scanFile [⟨[(5, 4), (5, 4), (3, 2)], none⟩]).rpl = 4 ∧ (scanFile [⟨[(5, 4), (5, 4), (3, 2)], none⟩]).bpl = 4 + 1 ∧
+          (FetchSpec.demoA.toList.drop 3).takeWhile (isData (inmapFasta 0))
+            = [[65, 67, 71, 84, 10], [65, 67, 71, 84, 10], [65, 67, 10]].flatten ++ [] ∧
+          (∀ l ∈ [[65, 67, 71, 84, 10], [65, 67, 71, 84, 10], [(65 : UInt8), 67, 10]],
+            ∃ body e, l = body ++ [e] ∧ isRes (inmapFasta 0) e = false) := by
+  refine ⟨by decide +kernel, by decide, by decide, by decide +kernel, ?_⟩
+  intro l hl
+  simp only [List.mem_cons, List.not_mem_nil, or_false] at hl
+  rcases hl with rfl | rfl | rfl
+  · exact ⟨[65, 67, 71, 84], 10, rfl, by decide +kernel⟩
+  · exact ⟨[65, 67, 71, 84], 10, rfl, by decide +kernel⟩
+  · exact ⟨[65, 67], 10, rfl, by decide +kernel⟩
 
 end fetchsub
 
